@@ -452,9 +452,42 @@ static void run_c09_values(unsigned seed) {
   (void) r;
 }
 
+// ---------------------------------------------------------------------------------------------------------- C04
+// dump what the C++ extended processor selects for wall times around every transition (first-stage selection by
+// findTransitionForDateTime, which is what ZoneSpecifier._find_transition_for_datetime mirrors) and at instants
+static void run_c04dump(const std::vector<OZone>& oracle, int zlo, int zhi) {
+  for (int zi = zlo; zi < zhi && zi < (int) zonedbx::kZoneRegistrySize; zi++) {
+    const extended::ZoneInfo* info = zonedbx::kZoneRegistry[zi];
+    const OZone& oz = oracle[zi];
+    ExtendedZoneProcessor proc(info);
+    printf("Z %s\n", extended::ZoneInfoBroker(info).name());
+    for (const Seg& s : oz.segs) {
+      if (s.t < 86400 * 2 || s.t >= END50 - 86400 * 2) continue;
+      const Seg& before = seg_at(oz, s.t - 1);
+      long long base = s.t + std::min(before.off, s.off);
+      base -= ((base % 60) + 60) % 60;
+      for (int k = -8; k <= 8; k++) {
+        long long w = base + k * 900LL;
+        LocalDateTime ldt = LocalDateTime::forEpochSeconds((acetime_t) w);
+        bool ok = proc.init(ldt.localDate());
+        const extended::Transition* tr = ok ? proc.mTransitionStorage.findTransitionForDateTime(ldt) : nullptr;
+        printf("W %lld %d\n", w, tr ? tr->offsetMinutes + tr->deltaMinutes : 99999);
+        g_evals++;
+      }
+      g_distinct++;
+    }
+  }
+}
+
 int main(int argc, char** argv) {
   if (argc < 2) return 3;
   std::string mode = argv[1];
+  if (mode == "c04dump" && argc >= 5) {
+    std::vector<OZone> oracle = load_oracle(argv[2]);
+    run_c04dump(oracle, atoi(argv[3]), atoi(argv[4]));
+    printf("SUMMARY {\"evaluations\": %llu, \"distinct\": %llu, \"fails\": %d}\n", g_evals, g_distinct, g_fails);
+    return 0;
+  }
   if (mode == "c01" && argc >= 7) {
     std::string db = argv[2];
     std::vector<OZone> oracle = load_oracle(argv[3]);
